@@ -1260,6 +1260,20 @@ Proof.
   repeat split; auto. apply single_item_rt; exact Hwf.
 Qed.
 
+Theorem prog_code_sound : forall its t2 b d,
+  case_code (CProg its t2 b d) = 0%N ->
+  forallb wf_item its = true /\ t2 = print_items its /\
+  p_items Repaired t2 = Ok its [] /\ b = true /\ d = true.
+Proof.
+  intros its t2 b d H. unfold case_code in H.
+  destruct (b && d) eqn:Hbd; cbn [negb] in H; [|discriminate].
+  destruct (parses_to_items t2 its); cbn [negb] in H; [|discriminate].
+  destruct (forallb wf_item its && toks_eqb (print_items its) t2) eqn:Hw; cbn [negb] in H; [|discriminate].
+  apply andb_true_iff in Hw as [Hwf Heq]. apply toks_eqb_eq in Heq. subst t2.
+  apply andb_true_iff in Hbd as [-> ->].
+  repeat split; auto. apply items_rt; exact Hwf.
+Qed.
+
 Theorem opaque_code_sound : forall a b d, case_code (COpaque a b d) = 0%N ->
   a = true /\ b = true /\ d = true.
 Proof.
